@@ -74,6 +74,7 @@ def specStep (f : String → Option GRec) : Op → Option (String → Option GRe
     | some r => some (upd f n (some (withRest r c i oload ofast)))
   | .save => some f
   | .touchUni => some f
+  | .touch n => if (f n).isSome then some f else none
 
 /-- domain of the property: inserted/assigned unicode lists carry no duplicates and a rename
 never targets a name that is present (the code would silently overwrite that glyph) -/
@@ -93,6 +94,7 @@ instance (f : String → Option GRec) : (op : Op) → Decidable (OpOK f op)
   | .edit .. => isTrue trivial
   | .save => isTrue trivial
   | .touchUni => isTrue trivial
+  | .touch _ => isTrue trivial
 
 /-- a rejected operation leaves the content as it was -/
 def specTotal (f : String → Option GRec) (op : Op) : String → Option GRec := (specStep f op).getD f
